@@ -259,13 +259,13 @@ fn sweep_cases(ctx: &mut Ctx, w: &World, idx: usize) {
     let mut p = 0usize;
     for i in 0..20 {
         for j in i + 1..20 {
-            for sign in 0..2 {
+            for wgt in deviation_weights() {
                 p += 1;
                 if p % ctx.nshards != ctx.shard { continue; }
                 let mut f = Forge::honest(ctx, &ms);
                 let d = Scalar::from(1 + ctx.prng.gen_range(0..1000u64));
                 coord(&mut f, i, d);
-                coord(&mut f, j, if sign == 0 { d } else { -d });
+                coord(&mut f, j, wgt * d);
                 let draft = match f.atoms(ctx, w, &Scalar::zero()) { Some(d) => d, None => return };
                 let c = match merchant_challenge(ctx, w, &a, &draft) { Some(c) => c, None => return };
                 let dd = match f.atoms(ctx, w, &c) { Some(d) => d, None => return };
